@@ -1,9 +1,8 @@
-(* Property C04 (concurrent connections are demultiplexed; each is exported as if it were alone) -- statements only, TLS over TCP.
-   The QUIC demultiplexer (connection IDs, then addresses) has no theorem: it is decided by the check on interleaved reference
-   connections, with byte-exact correspondence of its model. *)
+(* Property C04 (concurrent connections are demultiplexed; each is exported as if it were alone) -- statements only: TLS over TCP
+   (C04_sessions_as_if_alone ...) and the QUIC demultiplexer (C04_quic_...: addresses first, then connection IDs). *)
 From Coq Require Import ZArith List Bool.
 From Coq Require String.
-Require Import PyLib SuiteTypes Crypto KeySchedule Packet TlsSession Main C04P.
+Require Import PyLib SuiteTypes Crypto KeySchedule Packet TlsSession Main C04P QuicIdP QuicDemuxP.
 Import ListNotations.
 Open Scope Z_scope.
 
@@ -30,3 +29,28 @@ Theorem C04_output_is_union : forall C tbl parts o keylog a b,
   (do x <- decrypt_all C tbl parts o keylog a; do y <- decrypt_all C tbl parts o keylog b; Ok (x ++ y)).
 Proof. exact decrypt_all_app. Qed.
 Print Assumptions C04_output_is_union.
+
+(* QUIC.  For any datagram q: the sessions of q's flow (the sessions on q's pair of socket addresses) after reading any capture of
+   datagrams, interleaved in any order, are exactly the sessions obtained by reading only the datagrams of that flow -- keys,
+   connection IDs, packet numbers, collected frames and all; no other traffic leaves a trace in them.
+   Hypothesis `respects_run`: whenever a datagram reaches the connection-ID pass (no session has its addresses) and a session
+   knows its connection ID, that session and the datagram are both outside q's flow.  (A session on OTHER addresses claiming a
+   datagram by connection ID is QUIC connection migration: the two address pairs are then one connection, and "as if alone" is
+   not what the property asks for them.) *)
+Theorem C04_quic_sessions_as_if_alone : forall C o ftable kl q ps ss ss1,
+  respects_run C o ftable kl q ss ps -> qrun C o ftable kl ss ps = Ok ss1 ->
+  qrun C o ftable kl (qproj q ss) (filter (same_flowb q) ps) = Ok (qproj q ss1).
+Proof. exact quic_demux_run. Qed.
+Print Assumptions C04_quic_sessions_as_if_alone.
+
+(* the hypothesis holds in particular when no datagram that lacks a session on its addresses carries a connection ID known to a session *)
+Theorem C04_quic_hypothesis_met : forall q ss p,
+  (forall long, QuicDissector.get_header_type_long (p_data p) = Ok long -> (forall t, In t ss -> QuicSession.matches_session_dgram t p = false) ->
+     forall s, In s ss -> known_cid s p long (hdr_dcid p long) = None) -> respects q ss p.
+Proof. exact respects_when_no_cid_hit. Qed.
+
+(* one datagram: it changes at most the sessions of its own flow *)
+Theorem C04_quic_one_datagram : forall C o ftable kl q p ss ss', respects q ss p -> handle_quic_packet C o ftable kl ss p = Ok ss' ->
+  if same_flowb q p then handle_quic_packet C o ftable kl (qproj q ss) p = Ok (qproj q ss') else qproj q ss' = qproj q ss.
+Proof. exact handle_quic_proj. Qed.
+Print Assumptions C04_quic_one_datagram.
